@@ -77,7 +77,12 @@ Record state := mkState {
   sj : job; sr : option res; sp : option pod;
   sbp : Z;   (* pod bound to the reservation: 0 missing, 1 not ready, 2 ready *)
   snow : Z;  (* seconds since the job was created *)
-  sgen : Z   (* controller generation (restarts) *)
+  sgen : Z;  (* controller generation (restarts) *)
+  (* versions of the job and the controller's staleness guard (assumed_cache.go) *)
+  sold : list job;      (* older versions of the job the informer can still serve, newest first *)
+  sver : Z;             (* resourceVersion of [sj] (one step per successful job write) *)
+  sass : option Z;      (* resourceVersion remembered by assumedCache.assume, None = nothing assumed *)
+  slag : Z              (* how many job writes the informer lags behind at the next reconcile *)
 }.
 
 Inductive op :=
@@ -86,7 +91,8 @@ Inductive op :=
 | OSetPod (p : option pod)
 | OSetBP (b : Z)
 | OTick (d : Z)
-| ORestart.
+| ORestart
+| OStale (k : Z).   (* the next reconcile reads the job as it was k job-writes ago *)
 
 (* ---- job setters ---- *)
 Definition set_puid (j : job) (v : Z) : job :=
@@ -159,7 +165,9 @@ Definition new_res (p : pod) : res := mkRes true RP_EMPTY 0 0 false (owner_kind 
 Record ctx := mkCtx {
   cj : job; cr : option res;
   cf : list bool;       (* remaining fault bits *)
-  ce : list effect      (* recorded calls, oldest first *)
+  ce : list effect;     (* recorded calls, oldest first *)
+  cstale : bool;        (* the job was read from a lagging informer: every write of it conflicts *)
+  cw : list job         (* versions of the job written by this reconcile, newest first *)
 }.
 Inductive outc := Stop (c : ctx) | Go (c : ctx).
 Definition andthen (o : outc) (f : ctx -> outc) : outc :=
@@ -171,16 +179,17 @@ Definition ctx_of (o : outc) : ctx := match o with Stop c => c | Go c => c end.
 Definition pop (c : ctx) : bool * ctx :=
   match cf c with
   | [] => (false, c)
-  | b :: t => (b, mkCtx (cj c) (cr c) t (ce c))
+  | b :: t => (b, mkCtx (cj c) (cr c) t (ce c) (cstale c) (cw c))
   end.
-Definition with_job (c : ctx) (j : job) : ctx := mkCtx j (cr c) (cf c) (ce c).
-Definition with_res (c : ctx) (r : option res) : ctx := mkCtx (cj c) r (cf c) (ce c).
-Definition with_eff (c : ctx) (e : effect) : ctx := mkCtx (cj c) (cr c) (cf c) (ce c ++ [e]).
+Definition with_job (c : ctx) (j : job) : ctx := mkCtx j (cr c) (cf c) (ce c) (cstale c) (j :: cw c).
+Definition with_res (c : ctx) (r : option res) : ctx := mkCtx (cj c) r (cf c) (ce c) (cstale c) (cw c).
+Definition with_eff (c : ctx) (e : effect) : ctx := mkCtx (cj c) (cr c) (cf c) (ce c ++ [e]) (cstale c) (cw c).
 
-(* a write of the job (Update or Status().Update): fails -> the reconcile ends, nothing persisted *)
+(* a write of the job (Update or Status().Update): an injected failure, or a conflict because the
+   in-memory job is not the latest version -> the reconcile ends, nothing persisted *)
 Definition wjob (c : ctx) (j' : job) : outc :=
   let '(fail, c') := pop c in
-  if fail then Stop c' else Go (with_job c' j').
+  if fail then Stop c' else if cstale c' then Stop c' else Go (with_job c' j').
 
 (* updateCondition: write only when the condition changes *)
 Definition updcond (get : job -> Z) (set : job -> Z -> job) (v ss rs : Z) (c : ctx) : outc :=
@@ -404,20 +413,47 @@ Definition do_migrate (e : renv) (c : ctx) : outc :=
 (* Reconciler.Reconcile *)
 Definition ignored (j : job) (gen : Z) : bool := negb (owner j =? 0) && negb (owner j =? gen + 1).
 
-Definition reconcile (s : state) (faults : list bool) : state * list effect :=
-  if ignored (sj s) (sgen s) then (s, [])
-  else
-    let c := ctx_of (do_migrate (mkREnv (sp s) (sbp s) (snow s) (sgen s)) (mkCtx (sj s) (sr s) faults [])) in
-    (mkState (cj c) (cr c) (sp s) (sbp s) (snow s) (sgen s), ce c).
+(* assumedCache.isNewOrSameObj: a job older than the one assumed is skipped *)
+Definition rejected (a : option Z) (vr : Z) : bool :=
+  match a with Some va => vr <? va | None => false end.
 
+(* what the informer serves: the job [lag] writes ago, as far back as it can *)
+Definition lag_of (s : state) : nat := Nat.min (Z.to_nat (slag s)) (length (sold s)).
+Definition read_job (s : state) : job :=
+  match lag_of s with O => sj s | S k => nth k (sold s) (sj s) end.
+
+Definition unlag (s : state) : state :=
+  mkState (sj s) (sr s) (sp s) (sbp s) (snow s) (sgen s) (sold s) (sver s) (sass s) 0.
+
+Definition reconcile (s : state) (faults : list bool) : state * list effect :=
+  let n := lag_of s in
+  let stale := negb (Nat.eqb n 0) in
+  let jr := read_job s in
+  let vr := sver s - Z.of_nat n in
+  if rejected (sass s) vr then (unlag s, [])
+  else if ignored jr (sgen s) then (unlag s, [])
+  else
+    let c := ctx_of (do_migrate (mkREnv (sp s) (sbp s) (snow s) (sgen s)) (mkCtx jr (sr s) faults [] stale [])) in
+    if stale then
+      (* nothing of the job was written; assume() remembers the version that was read *)
+      (mkState (sj s) (cr c) (sp s) (sbp s) (snow s) (sgen s) (sold s) (sver s) (Some vr) 0, ce c)
+    else
+      let ver' := sver s + Z.of_nat (length (cw c)) in
+      (mkState (cj c) (cr c) (sp s) (sbp s) (snow s) (sgen s)
+               (match cw c with [] => sold s | _ :: t => t ++ sj s :: sold s end)
+               ver' (Some ver') 0, ce c).
+
+(* a restarted controller has an empty assumed cache and a freshly listed informer, which cannot
+   serve anything older than the job as it is now *)
 Definition step (s : state) (o : op) : state * list effect :=
   match o with
   | OReconcile f => reconcile s f
-  | OSetRes r => (mkState (sj s) r (sp s) (sbp s) (snow s) (sgen s), [])
-  | OSetPod p => (mkState (sj s) (sr s) p (sbp s) (snow s) (sgen s), [])
-  | OSetBP b => (mkState (sj s) (sr s) (sp s) b (snow s) (sgen s), [])
-  | OTick d => (mkState (sj s) (sr s) (sp s) (sbp s) (snow s + d) (sgen s), [])
-  | ORestart => (mkState (sj s) (sr s) (sp s) (sbp s) (snow s) (sgen s + 1), [])
+  | OSetRes r => (mkState (sj s) r (sp s) (sbp s) (snow s) (sgen s) (sold s) (sver s) (sass s) (slag s), [])
+  | OSetPod p => (mkState (sj s) (sr s) p (sbp s) (snow s) (sgen s) (sold s) (sver s) (sass s) (slag s), [])
+  | OSetBP b => (mkState (sj s) (sr s) (sp s) b (snow s) (sgen s) (sold s) (sver s) (sass s) (slag s), [])
+  | OTick d => (mkState (sj s) (sr s) (sp s) (sbp s) (snow s + d) (sgen s) (sold s) (sver s) (sass s) (slag s), [])
+  | ORestart => (mkState (sj s) (sr s) (sp s) (sbp s) (snow s) (sgen s + 1) [] (sver s) None (slag s), [])
+  | OStale k => (mkState (sj s) (sr s) (sp s) (sbp s) (snow s) (sgen s) (sold s) (sver s) (sass s) k, [])
   end.
 
 (* the history: every intermediate state and the effects of every operation *)
@@ -437,4 +473,4 @@ Definition recheck_same_node : bool := true.
 (* the job as created: no status except possibly phase Pending *)
 Definition init_job (direct paused : bool) (ttl : Z) (pvalid : bool) (initphase : Z) (rref0 : bool) (createdby : bool) : job :=
   mkJob paused direct ttl pvalid (if createdby then 1 else 0) 0 rref0 initphase 0 0 0 0 0 0 0 0 0 0 0.
-Definition init_state (j : job) : state := mkState j None None 0 0 0.
+Definition init_state (j : job) : state := mkState j None None 0 0 0 [] 0 None 0.
